@@ -137,12 +137,12 @@ type healthWit struct {
 }
 
 type healthWorld struct {
-	base    string
-	logs    []*healthLog
-	wits    []*healthWit
-	addr    string
-	cmd     *exec.Cmd
-	client  *http.Client
+	base     string
+	logs     []*healthLog
+	wits     []*healthWit
+	addr     string
+	cmd      *exec.Cmd
+	client   *http.Client
 	pristine map[string][]byte // absolute path -> content of every small file a breaker may touch
 }
 
